@@ -155,7 +155,7 @@ def kw_items_factory(stride):
 
 def subchecks(tier):
     q = tier == "quick"
-    subs = [Hyp("pairs-near-thresholds", strategy, judge, examples=6400 if q else 180000)]
+    subs = [Hyp("pairs-near-thresholds", strategy, judge, examples=5600 if q else 180000)]
     subs.append(Enum("grey-x-grey", judge=judge, items=grey_items_factory(32 if q else 1), exhaustive=not q))
     subs.append(Enum("keyword-x-keyword", judge=judge, items=kw_items_factory(16 if q else 1), exhaustive=not q))
     return subs
